@@ -83,3 +83,220 @@ Proof.
       * eexists. reflexivity.
       * eexists. reflexivity.
 Qed.
+
+(* ---------------------------------------------------------------- a body is on a stack exactly while it is running or paused *)
+
+Definition body_ok (b : body) : Prop :=
+  b_on b = None <-> (b_state b = BCreated \/ b_state b = BDead).
+
+Definition OnInv (st : state) : Prop :=
+  forall tk, In tk (tasks st) -> forall b, In b (tk_bodies tk) -> body_ok b.
+
+Lemma in_update {A} (l : list A) n x y : In y (update l n x) -> y = x \/ In y l.
+Proof.
+  revert n. induction l as [|h t IH]; intros [|n] H; cbn in *; try contradiction.
+  - destruct H as [<-|H]; [left; reflexivity|right; right; exact H].
+  - destruct H as [<-|H]; [right; left; reflexivity|]. destruct (IH n H) as [->|H']; [left; reflexivity|right; right; exact H'].
+Qed.
+
+Lemma find_task_from_in l loom pid mdl id i j tk :
+  find_task_from l loom pid mdl id i = Some (j, tk) -> In tk l /\ nth_error l (j - i) = Some tk /\ (i <= j)%nat.
+Proof.
+  revert i. induction l as [|t r IH]; intros i H; cbn in H; [discriminate|].
+  destruct (Nat.eqb (tk_loom t) loom && (tk_pid t =? pid) && (tk_model t =? mdl) && (tk_id t =? id)).
+  - inversion H; subst. split; [left; reflexivity|]. rewrite Nat.sub_diag. split; [reflexivity|lia].
+  - destruct (IH (S i) H) as (Hin & Hn & Hle). split; [right; exact Hin|]. split; [|lia].
+    replace (j - i)%nat with (S (j - S i)) by lia. exact Hn.
+Qed.
+
+Lemma find_body_from_in l id i j b : find_body_from l id i = Some (j, b) -> In b l.
+Proof.
+  revert i. induction l as [|x r IH]; intros i H; cbn in H; [discriminate|].
+  destruct (b_id x =? id); [inversion H; subst; left; reflexivity|right; eapply IH; eauto].
+Qed.
+
+Lemma store_body_inv st ti tk bi b :
+  OnInv st -> In tk (tasks st) -> body_ok b -> OnInv (store_body st ti tk bi b).
+Proof.
+  intros HI Htk Hb tk' Hin b' Hb'. unfold store_body, set_tasks in Hin. cbn [tasks] in Hin.
+  apply in_update in Hin. destruct Hin as [-> | Hin]; [|apply (HI tk' Hin b' Hb')].
+  unfold set_bodies in Hb'. cbn [tk_bodies] in Hb'.
+  destruct bi as [i|].
+  - apply in_update in Hb'. destruct Hb' as [->|Hb']; [exact Hb|apply (HI tk Htk b' Hb')].
+  - apply in_app_or in Hb'. destruct Hb' as [Hb'|[<-|[]]]; [apply (HI tk Htk b' Hb')|exact Hb].
+Qed.
+
+Lemma OnInv_set_thread st t th : OnInv st -> OnInv (set_thread st t th).
+Proof. intros H. exact H. Qed.
+
+Theorem task_op_OnInv st who th loom pid mdl kind tid bid st' :
+  OnInv st -> task_op st who th loom pid mdl kind tid bid = Ok st' -> OnInv st'.
+Proof.
+  intros HI H. unfold task_op in H.
+  destruct (find_task st loom pid mdl tid) as [[ti tk]|] eqn:Ef; [|discriminate].
+  unfold find_task in Ef. destruct (find_task_from_in _ _ _ _ _ _ _ _ Ef) as (Htk & _ & _).
+  assert (Hrun : body_ok {| b_id := bid; b_state := BRunning; b_on := Some who |}).
+  { unfold body_ok. cbn. split; [discriminate|intros [E|E]; discriminate]. }
+  destruct (kind =? 120).
+  - (* execute: the new/updated body is Running on who *)
+    match type of H with match ?o with Some _ => _ | None => _ end = _ => destruct o as [[bi b]|]; [|discriminate] end.
+    match type of H with match ?o with Some _ => _ | None => _ end = _ => destruct o as [s0|]; [|discriminate] end.
+    destruct s0; try discriminate.
+    destruct (b_on b); [discriminate|].
+    destruct (running_top st loom pid th mdl) as [[tk' b']|].
+    + destruct (tk_relax tk'); [|discriminate]. inversion H; subst. apply OnInv_set_thread. apply store_body_inv; assumption.
+    + inversion H; subst. apply OnInv_set_thread. apply store_body_inv; assumption.
+  - destruct (find_body tk bid) as [[bi b]|] eqn:Eb; [|discriminate].
+    assert (Hon : forall s, (match b_on b with Some w => Nat.eqb w who | None => false end) = true ->
+                  (s = BRunning \/ s = BPaused) -> body_ok {| b_id := bid; b_state := s; b_on := b_on b |}).
+    { intros s Ho Hs. apply on_me_eq in Ho. unfold body_ok. cbn. rewrite Ho.
+      split; [discriminate|intros [E|E]; destruct Hs as [-> | ->]; discriminate]. }
+    assert (Hdead : body_ok {| b_id := bid; b_state := BDead; b_on := None |}).
+    { unfold body_ok. cbn. split; [intros _; right; reflexivity|reflexivity]. }
+    destruct (kind =? 112).
+    + break_in H. inversion H; subst. apply store_body_inv; try assumption. apply Hon; [|right; reflexivity].
+      match goal with E : negb (match b_on b with _ => _ end) = false |- _ => apply negb_false_iff in E; exact E end.
+    + destruct (kind =? 114).
+      * break_in H. inversion H; subst. apply store_body_inv; try assumption. apply Hon; [|left; reflexivity].
+        match goal with E : negb (match b_on b with _ => _ end) = false |- _ => apply negb_false_iff in E; exact E end.
+      * destruct (kind =? 101); [|discriminate].
+        break_in H. inversion H; subst. apply OnInv_set_thread. apply store_body_inv; assumption.
+Qed.
+
+(* consequences of the iff: a body that is on some stack cannot be executed; pause/resume/end need the
+   body on top of the calling thread's own stack *)
+Corollary execute_needs_free_body st who th loom pid mdl tid bid st' :
+  OnInv st -> task_op st who th loom pid mdl K_EXEC tid bid = Ok st' ->
+  forall ti tk bi b, find_task st loom pid mdl tid = Some (ti, tk) -> find_body tk bid = Some (bi, b) ->
+    b_on b = None /\ b_state b <> BRunning /\ b_state b <> BPaused.
+Proof.
+  intros HI H ti tk bi b Hf Hb.
+  assert (L : legal st who th loom pid mdl K_EXEC tid bid) by (apply task_op_iff; eexists; exact H).
+  destruct L as (ti' & tk' & Hf' & [(_ & Hb' & _) | (bi' & b' & _ & _ & _ & [(K & _)|[(K & _)|(K & _)]])]); try discriminate.
+  rewrite Hf in Hf'. inversion Hf'; subst ti' tk'. rewrite Hb in Hb'. destruct Hb' as [Hs Ho].
+  split; [exact Ho|]. destruct Hs as [Hs|[Hs _]]; rewrite Hs; split; discriminate.
+Qed.
+
+Corollary other_ops_need_own_top st who th loom pid mdl kind tid bid st' :
+  kind <> K_EXEC -> task_op st who th loom pid mdl kind tid bid = Ok st' ->
+  exists ti tk bi b, find_task st loom pid mdl tid = Some (ti, tk) /\ find_body tk bid = Some (bi, b) /\
+    b_on b = Some who /\ is_top th mdl tid bid = true.
+Proof.
+  intros Hk H.
+  assert (L : legal st who th loom pid mdl kind tid bid) by (apply task_op_iff; eexists; exact H).
+  destruct L as (ti & tk & Hf & [(K & _) | (bi & b & Hb & Ho & Ht & _)]); [contradiction|].
+  exists ti, tk, bi, b. repeat split; assumption.
+Qed.
+
+Corollary parallel_cannot_pause st who th loom pid mdl tid bid st' ti tk :
+  find_task st loom pid mdl tid = Some (ti, tk) -> tk_pause tk = false ->
+  task_op st who th loom pid mdl K_PAUSE tid bid = Ok st' -> False.
+Proof.
+  intros Hf Hp H.
+  assert (L : legal st who th loom pid mdl K_PAUSE tid bid) by (apply task_op_iff; eexists; exact H).
+  destruct L as (ti' & tk' & Hf' & [(K & _) | (bi & b & Hb & Ho & Ht & [(_ & _ & Hp')|[(K & _)|(K & _)]])]); try discriminate.
+  rewrite Hf in Hf'. inversion Hf'; subst. congruence.
+Qed.
+
+(* ---------------------------------------------------------------- the invariant holds in every reachable state *)
+
+Lemma OnInv_tasks st st' : tasks st' = tasks st -> OnInv st -> OnInv st'.
+Proof. intros E H tk Hin. rewrite E in Hin. apply (H tk Hin). Qed.
+
+Lemma change_state_tasks sx st who th ok new st1 : change_state sx st who th ok new = Ok st1 -> tasks st1 = tasks st.
+Proof. unfold change_state. intros H. break_in H; inversion H; subst; reflexivity. Qed.
+
+Lemma migrate_tasks sx st t th old new st1 : migrate sx st t th old new = Ok st1 -> tasks st1 = tasks st.
+Proof. unfold migrate. intros H. break_in H; inversion H; subst; reflexivity. Qed.
+
+Lemma oh_step_tasks sx st who e st1 : oh_step sx st who e = Ok st1 -> tasks st1 = tasks st.
+Proof.
+  intros H. unfold oh_step, nth_opt in H.
+  destruct (nth_error (threads st) who) as [th|]; [|discriminate].
+  destruct (t_ooc th); [discriminate|].
+  destruct e; try (eapply change_state_tasks; eauto; fail).
+  - break_in H; inversion H; subst; reflexivity.
+  - break_in H; inversion H; subst; reflexivity.
+  - destruct (t_cpu th) as [old|]; [|discriminate].
+    destruct (negb (is_active (t_state th))); [discriminate|].
+    destruct (find_cpu sx (thread_loom sx who) cpuidx) as [new|]; [|discriminate].
+    destruct (Nat.eqb old new); [inversion H; reflexivity|eapply migrate_tasks; eauto].
+  - destruct (find_remote sx who tid) as [r|]; [|discriminate].
+    destruct (nth_error (threads st) r) as [rth|]; [|discriminate].
+    destruct (t_state rth); try discriminate;
+      (destruct (t_cpu rth) as [old|]; [|discriminate];
+       destruct (find_cpu sx (thread_loom sx who) cpuidx) as [new|]; [|discriminate];
+       destruct (Nat.eqb old new); [discriminate|]; eapply migrate_tasks; eauto).
+Qed.
+
+Lemma chan_step_tasks sx st who k a v st1 d : chan_step sx st who k a v = Ok (st1, d) -> tasks st1 = tasks st.
+Proof. unfold chan_step. intros H. break_in H; inversion H; subst; reflexivity. Qed.
+
+Lemma set_chans_tasks sx who ws : forall st d0 st1 d, set_chans sx st who ws d0 = Ok (st1, d) -> tasks st1 = tasks st.
+Proof.
+  induction ws as [|[k v] ws IH]; intros st d0 st1 d H; cbn [set_chans] in H; [inversion H; reflexivity|].
+  destruct (chan_step sx st who k SET v) as [[st' d1]|] eqn:E; [|discriminate].
+  rewrite (IH _ _ _ _ H). eapply chan_step_tasks; eauto.
+Qed.
+
+Lemma task_event_OnInv sx st who cfg mdl kind tid bid st1 dirty :
+  OnInv st -> task_event sx st who cfg mdl kind tid bid = Ok (st1, dirty) -> OnInv st1.
+Proof.
+  unfold task_event, nth_opt. intros HI H.
+  destruct (nth_error (threads st) who) as [th|]; [|discriminate].
+  destruct (nth_error (s_threads sx) who) as [ti|]; [|discriminate].
+  destruct (find_task st (ti_loom ti) (ti_pid ti) mdl tid) as [[i0 tk0]|]; [|discriminate].
+  match type of H with match ?o with Some _ => _ | None => _ end = _ => destruct o as [b|]; [|discriminate] end.
+  destruct (task_op st who th (ti_loom ti) (ti_pid ti) mdl kind tid b) as [s1|] eqn:Eop; [|discriminate].
+  pose proof (task_op_OnInv _ _ _ _ _ _ _ _ _ _ HI Eop) as H1.
+  match type of H with match ?ssr with Ok _ => _ | Err _ => _ end = _ => destruct ssr as [[s2 d1]|] eqn:Ess; [|discriminate] end.
+  assert (T2 : tasks s2 = tasks s1).
+  { destruct (kind =? 120); [eapply chan_step_tasks; eauto|]. destruct (kind =? 101); [eapply chan_step_tasks; eauto|]. inversion Ess; reflexivity. }
+  match type of H with match ?w with Ok _ => _ | Err _ => _ end = _ => destruct w as [ws|]; [|discriminate] end.
+  destruct (set_chans sx s2 who ws d1) as [[s3 d]|] eqn:Esc; [|discriminate].
+  pose proof (set_chans_tasks _ _ _ _ _ _ _ Esc) as T3.
+  assert (H3 : OnInv s3) by (apply (OnInv_tasks s1); [congruence|exact H1]).
+  break_in H; inversion H; subst; exact H3.
+Qed.
+
+Theorem core_step_OnInv sx st who ev st1 dirty :
+  OnInv st -> core_step sx st who ev = Ok (st1, dirty) -> OnInv st1.
+Proof.
+  intros HI H. unfold core_step, nth_opt in H. destruct ev.
+  - destruct (oh_step sx st who e) as [s|] eqn:E; [|discriminate]. inversion H; subst.
+    apply (OnInv_tasks st); [eapply oh_step_tasks; eauto|exact HI].
+  - destruct (nth_error (threads st) who) as [th|]; [|discriminate].
+    break_in H; (apply (OnInv_tasks st); [eapply chan_step_tasks; eauto|exact HI]).
+  - destruct (nth_error (threads st) who) as [th|]; [|discriminate].
+    apply (OnInv_tasks st); [|exact HI]. rewrite (chan_step_tasks _ _ _ _ _ _ _ _ H). reflexivity.
+  - destruct (nth_error (threads st) who) as [th|]; [|discriminate].
+    destruct (need_ok (tc_need cfg) th); [|discriminate]. eapply task_event_OnInv; eauto.
+  - destruct (nth_error (threads st) who) as [th|]; [|discriminate].
+    destruct (need_ok need th); [|discriminate].
+    destruct (task_create sx st who mdl tid typeid par res pause relax) as [s|] eqn:E; [|discriminate].
+    inversion H; subst. unfold task_create, nth_opt in E. break_in E. inversion E; subst.
+    intros tk Hin b Hb. unfold set_tasks in Hin. cbn [tasks] in Hin. apply in_app_or in Hin.
+    destruct Hin as [Hin|[<-|[]]]; [apply (HI tk Hin b Hb)|cbn in Hb; contradiction].
+  - destruct (nth_error (threads st) who) as [th|]; [|discriminate].
+    destruct (need_ok need th); [|discriminate].
+    destruct (type_create sx st who mdl typeid gid) as [s|] eqn:E; [|discriminate].
+    inversion H; subst. unfold type_create, nth_opt in E. break_in E. inversion E; subst. exact HI.
+  - destruct (nth_error (threads st) who) as [th|]; [|discriminate].
+    destruct (t_ooc th); [discriminate|]. inversion H; subst. exact HI.
+  - discriminate.
+Qed.
+
+Lemma OnInv_init sx : OnInv (init sx).
+Proof. intros tk []. Qed.
+
+Theorem run_from_OnInv sx evs : forall st st' tl, OnInv st -> run_from sx st evs = Ok (st', tl) -> OnInv st'.
+Proof.
+  induction evs as [|[[tm who] ev] evs IH]; intros st st' tl HI H; cbn [run_from] in H.
+  - inversion H; subst. exact HI.
+  - destruct (step sx st who ev) as [[st1 ls1]|] eqn:Es; [|discriminate].
+    destruct (run_from sx st1 evs) as [[st2 tl2]|] eqn:Er; [|discriminate].
+    inversion H; subst st' tl. apply (IH st1 st2 tl2); [|exact Er].
+    unfold step in Es. destruct (core_step sx st who ev) as [[s1 d]|] eqn:Ec; [|discriminate].
+    destruct (emit_all (prv_last s1) (all_reqs sx st s1 d)) as [[l' ls]|]; [|discriminate].
+    inversion Es; subst. apply (OnInv_tasks s1); [reflexivity|]. eapply core_step_OnInv; eauto.
+Qed.
